@@ -157,14 +157,36 @@ func genAsymEndpoints(t *rapid.T, geo int32, label string) []epochstoragetypes.E
 		}
 		return out
 	}
+	// split (0 = no): the add-on and the extension of one interface are served by two different
+	// endpoints (1: extension-only endpoint first, 2: add-on-only endpoint first), so the provider
+	// serves each of them but not the combination "add-on with extension"
+	splitJS, splitRS := 0, 0
+	if !defaults {
+		if chance(t, label+"_jsonrpc_split", 1, 4) {
+			splitJS = uniform(t, label+"_jsonrpc_splitOrder", 1, 2)
+		}
+		if chance(t, label+"_rest_split", 1, 4) {
+			splitRS = uniform(t, label+"_rest_splitOrder", 1, 2)
+		}
+	}
+	one := func(iface, ipport string, bit int32, s sup, split int) []epochstoragetypes.Endpoint {
+		if split == 0 {
+			return []epochstoragetypes.Endpoint{{IPPORT: ipport, Geolocation: bit, ApiInterfaces: []string{iface}, Addons: svc(s)}}
+		}
+		ext := epochstoragetypes.Endpoint{IPPORT: ipport, Geolocation: bit, ApiInterfaces: []string{iface}, Addons: []string{chain.ExtArch}}
+		add := epochstoragetypes.Endpoint{IPPORT: strings.Replace(ipport, ":443", ":8443", 1), Geolocation: bit, ApiInterfaces: []string{iface}, Addons: []string{chain.AddonDB}}
+		if split == 1 {
+			return []epochstoragetypes.Endpoint{ext, add}
+		}
+		return []epochstoragetypes.Endpoint{add, ext}
+	}
 	var eps []epochstoragetypes.Endpoint
 	for _, bit := range geoBits(geo) {
 		if defaults {
 			eps = append(eps, epochstoragetypes.Endpoint{IPPORT: "10.0.0.5:443", Geolocation: bit, Addons: svc(js)})
 		} else {
-			eps = append(eps,
-				epochstoragetypes.Endpoint{IPPORT: "10.0.0.2:443", Geolocation: bit, ApiInterfaces: []string{chain.IfJSON}, Addons: svc(js)},
-				epochstoragetypes.Endpoint{IPPORT: "10.0.0.3:443", Geolocation: bit, ApiInterfaces: []string{chain.IfREST}, Addons: svc(rs)})
+			eps = append(eps, one(chain.IfJSON, "10.0.0.2:443", bit, js, splitJS)...)
+			eps = append(eps, one(chain.IfREST, "10.0.0.3:443", bit, rs, splitRS)...)
 		}
 		if grpc {
 			eps = append(eps, epochstoragetypes.Endpoint{IPPORT: "10.0.0.4:9090", Geolocation: bit, ApiInterfaces: []string{chain.IfGRPC}})
@@ -439,17 +461,17 @@ type reqKey struct {
 
 // effective is what the statement calls the consumer's policies combined for one chain.
 type effective struct {
-	OK       bool   // a pairing list is expected to exist
-	Why      string // when !OK
-	Project  projectstypes.Project
-	Policies []*planstypes.Policy
-	NPol     int
-	MaxProv  uint64
-	Geo      int32
-	Mode     planstypes.SELECTED_PROVIDERS_MODE
-	Selected map[string]bool // only meaningful for EXCLUSIVE / MIXED
-	Reqs     []planstypes.ChainRequirement
-	AnyMixed bool
+	OK          bool   // a pairing list is expected to exist
+	Why         string // when !OK
+	Project     projectstypes.Project
+	Policies    []*planstypes.Policy
+	NPol        int
+	MaxProv     uint64
+	Geo         int32
+	Mode        planstypes.SELECTED_PROVIDERS_MODE
+	Selected    map[string]bool // only meaningful for EXCLUSIVE / MIXED
+	Reqs        []planstypes.ChainRequirement
+	AnyMixed    bool
 	PolWithReqs int // number of policies with requirements for the chain
 }
 
@@ -597,6 +619,23 @@ func supportsReq(entry *epochstoragetypes.StakeEntry, r planstypes.ChainRequirem
 			}
 		}
 		if ok {
+			return true
+		}
+	}
+	return false
+}
+
+// splitSupport: some mandatory requirement with an add-on and extensions is not supported by the
+// entry although one of its endpoints serves the add-on and another one the extensions.
+func splitSupport(entry *epochstoragetypes.StakeEntry, reqs []planstypes.ChainRequirement) bool {
+	for _, r := range reqs {
+		if r.Collection.AddOn == "" || r.Collection.AddOn == r.Collection.ApiInterface || len(r.Extensions) == 0 || supportsReq(entry, r) {
+			continue
+		}
+		noExt, noAddon := r, r
+		noExt.Extensions = nil
+		noAddon.Collection.AddOn = ""
+		if supportsReq(entry, noExt) && supportsReq(entry, noAddon) {
 			return true
 		}
 	}
